@@ -27,7 +27,7 @@ def build_compiler(backend_name, which):
         tpl = os.path.join(d, 'types_template.d.ts')
         open(tpl, 'w').write('/*TYPES*/\n')
         args = [tpl]
-    c = Compiler(specs_to_ir(D.spec_set(which)), importlib.import_module('stone.backends.' + backend_name), args, out,
+    c = Compiler(specs_to_ir(D.spec_set(which)), importlib.import_module('stone.backends.' + D.module_of(backend_name)), args, out,
                  clean_build=False)
     c._verif = (backend_name, which, d, out)
     return c
